@@ -351,6 +351,14 @@ def run_case(concepts, case, spec):
         if g is not RAISED:
             call(list, g)
         call(c.minimal)
+    if len(ctx.objects) <= 12 and len(ctx.properties) <= 12 and sl.n <= 200:
+        common.interference(concepts, ctx, lat, rng, 15)
+        for c in list(which)[:8]:
+            g = call(c.attributes)
+            if g is not RAISED:
+                call(list, g)
+            call(c.minimal)
+        COL.count('asked_again_after_interference')
     old = POOL.older(rng)
     if old is not None:
         c = rng.choice(old)
